@@ -128,6 +128,7 @@ func scenarioRelay() int {
 			n = ev.Pick(3000, 40000)
 		}
 	}
+	resent := 0
 	learn := newLearnModel(len(w.Svcs))
 	// the readiness barriers already taught every service the first UA
 	for s := range w.Svcs {
@@ -289,6 +290,23 @@ func scenarioRelay() int {
 		if ok && len(obs) == 1 {
 			relayed[c.kind+"/"+c.path.Proto+">"+obs[0].Proto]++
 		}
+		if prop == "C02" && c.kind == "response" && ok && len(obs) == 1 && i%3 == 0 {
+			// the same response once more, byte for byte (the next answer of a transaction repeats
+			// the Via lines of the previous one): it is relayed the same way again
+			w.Net.Forget(c.id)
+			if w.Send(c.path, raw, c.id) == nil && w.Barrier(c.path) {
+				obs2 := w.Net.ForCase(c.id)
+				if len(obs2) == 0 {
+					w.Net.WaitCase(c.id, func(o []*wire.Obs) bool { return len(o) >= 1 }, w.BarrierWait)
+					obs2 = w.Net.ForCase(c.id)
+				}
+				c2 := *c
+				c2.sig = "sent-again," + c.sig
+				judgeRelay(run, w, prop, &c2, obs2, branches)
+				c.nobs = len(obs2)
+				resent++
+			}
+		}
 		if run.WantSample() && i > 30 && len(obs) == 1 && len(raw) < 1500 {
 			run.Sample(map[string]any{"kind": c.kind, "ingress": c.path.Proto, "service": c.path.Svc, "input": string(raw), "output": string(obs[0].Raw), "observed_at": obs[0].Ep})
 		}
@@ -317,6 +335,7 @@ func scenarioRelay() int {
 		}
 	}
 	run.Observe("oversize_responses_sent_in_between", oversize)
+	run.Observe("responses_sent_a_second_time_byte_for_byte", resent)
 	run.Observe("relays_per_path", relayed)
 	run.Observe("barriers", w.Barriers)
 	run.Observe("barrier_timeouts", w.BarrierMisses)
@@ -1132,6 +1151,27 @@ func decorateC01(g *sip.Gen, m *sip.Msg, c *relayCase) string {
 				wire.SetHeader(m, "To", "<tel:+15550199>;tag="+g.Tag())
 			}
 			sig = append(sig, "in-dialog-shaped")
+			if g.R.Intn(2) == 0 {
+				// a notification inside a dialog: the proxy reads its Subscription-State on the way to
+				// a backend - and must pass it on as it came, blanks around ';' and '=' included
+				if sp := strings.IndexByte(m.Start, ' '); sp > 0 {
+					m.Start = "NOTIFY" + m.Start[sp:]
+					for i, h := range m.Headers {
+						if sip.Canon(h.Name) == "cseq" {
+							if f := strings.Fields(h.Value); len(f) == 2 {
+								m.Headers[i].Value = f[0] + " NOTIFY"
+							}
+						}
+					}
+				}
+				st := []string{"active; expires=3600", "active ;expires=60", "pending;  retry-after=5", "Active;Expires=10", "active;expires=0300", "terminated ; reason=timeout", "terminated;reason=noresource;x", "active"}[g.R.Intn(8)]
+				name := []string{"Subscription-State", "subscription-state", "SUBSCRIPTION-STATE"}[g.R.Intn(3)]
+				pos := 1 + g.R.Intn(len(m.Headers))
+				hs := append([]sip.Header{}, m.Headers[:pos]...)
+				hs = append(hs, sip.Header{Name: name, Value: st}, sip.Header{Name: "Event", Value: "presence"})
+				m.Headers = append(hs, m.Headers[pos:]...)
+				sig = append(sig, "notify-subscription-state")
+			}
 		}
 	}
 	if !m.IsRequest() || g.R.Intn(2) == 0 {
